@@ -164,6 +164,24 @@ def run(res, tier, seed, replay):
         res.nontrivial((o, pj[0][1]))
         if st != "err" or "directive not allowed" not in msg or int(d["idx"]) != off or C.unhx(d["file"]).decode() != f:
             spec_bad.append((pj, o, "expected 'not allowed' at %s:%d, got %s %s at %s:%s" % (f, off, st, msg[:60], C.unhx(d.get("file", "-")).decode(), d.get("idx"))))
+    # --- 2b. an option value shared by two projects: the second one (option A only) gives what a fresh option A gives, whatever
+    # the first project combined the value with
+    docs_s = [J + "MACRO @m\n(\n  200 any\n)\nGET /a\n  PASTE @m\n", J + "TYPE @t\n{}\nGET /a\n  200 @t\n", J + "TAG @g\nGET /a\n  Tags @g\n  200 any\n",
+              J + "GET /a\n  200 any\n"]
+    sh_lines, sh_meta = [], []
+    for d1 in docs_s:
+        for d2 in docs_s:
+            for ka, kb in (("23", "21+22"), ("23", "19"), ("28", "29+21"), ("5", "8"), ("23", "15")):
+                sh_lines.append("banshare %s %s %s %s" % (C.hx(d1.encode()), C.hx(d2.encode()), ka, kb))
+                sh_meta.append((d1, d2, ka, kb))
+    sh_out = C.run_lines("harness", "fn", sh_lines)
+    res.count(len(sh_lines))
+    for (d1, d2, ka, kb), o in zip(sh_meta, sh_out):
+        if not o.startswith("same "):
+            spec_bad.append(([("main.jst", d2)], "ban=" + ka, "an option value banning %s was first combined with a ban of %s in another project; the project that gets the value "
+                             "alone no longer gives the result of a fresh option: %s" % (ka, kb, o[:260])))
+            break
+        res.nontrivial(("banshare", d1, d2, ka, kb))
     # --- 3. INCLUDE banned: nothing it names is read: the result cannot depend on the file
     variants = [
         [("main.jst", J + "INCLUDE x.jst\n"), ("x.jst", "TYPE @t\n{}\n")],
